@@ -1,10 +1,15 @@
 """C13 — adding and removing marks over a range has exactly the documented effect.
 
 Tie: the four mark steps and the attribute step are tied exactly through Step.apply (C01's
-correspondence runs them too); here the *planners* of Transform (add_mark / remove_mark walk and
-range coalescing, add/remove_node_mark, set_node_attribute, set_block_type, set_node_markup) are
-checked relationally: every step they emit is applied by the model as well (same document), and
-the final document satisfies the documented per-token effect.
+correspondence runs them too).  The *planners* of Transform are modelled (lean/PM/MarkPlan.lean:
+add_mark / remove_mark walk and range coalescing; lean/PM/TypePlan.lean: add/remove_node_mark,
+set_node_attribute, set_node_markup, clear_incompatible, set_block_type) and tied exactly: for every
+generated case the model's planned step list (in application order), the outcome class and the final
+document are compared with tr.steps / the raised error / tr.doc of the real operation.  The Fitter
+(replace_step beyond a trivial fit, property C11) is an oracle of the model: its recorded answers are
+handed over in call order and all must be consumed.  In addition every emitted step is applied by the
+model to the recorded document before it, and the final document satisfies the documented per-token
+effect.
 Search: per-token oracle computed from to_json(): qualifying inline tokens inside the range carry
 the mark (documented add rule), matching marks are gone after removal, text/structure and marks
 outside the range are unchanged, node-level edits change only the addressed node, retyping keeps
@@ -15,9 +20,39 @@ import re
 from prosemirror.model import MarkType
 from prosemirror.transform import Transform
 
+from prosemirror.transform import replace as _replace_mod
+
 from .. import core, gen, ops, schemas
 from ..codec import doc_tokens, jval
 from ..core import outcome
+
+# The Fitter (transform/replace.py, property C11) is an oracle of the planner model: its answers are recorded, in call
+# order, while the real operation runs, and handed to the model, which consumes one whenever the code would call it.
+_FIT_LOG = []
+_orig_fit = _replace_mod.Fitter.fit
+
+
+def _logged_fit(self):
+    try:
+        r = _orig_fit(self)
+    except core.Timeout:
+        raise
+    except Exception as e:  # noqa: BLE001
+        _FIT_LOG.append(("err", e))
+        raise
+    _FIT_LOG.append(("ok", r))
+    return r
+
+
+_replace_mod.Fitter.fit = _logged_fit
+
+
+def err_class(e):
+    from prosemirror.model.replace import ReplaceError
+    from prosemirror.transform.transform import TransformError
+    if isinstance(e, (ReplaceError, TransformError)):
+        return "failed"
+    return "valueError" if isinstance(e, ValueError) else "internal"
 
 
 def ref_add(schema, mark_key, marks):
@@ -160,9 +195,67 @@ def run(ctx):
         outs = ctx.driver.run(reqs) if reqs else []
         for req, (replay, exp), out in zip(reqs, metas, outs):
             ctx.count("model_requests")
+            if isinstance(exp, tuple) and exp[0] == "plan":
+                # exact tie of a planner: the emitted step list (in order) and the outcome of applying it
+                _, name, st, steps, final = exp
+                ctx.count(f"plan_tie:{name}")
+                if st == "ok" and name not in ("add_mark", "remove_mark"):
+                    got = out.get("ok")
+                    if not isinstance(got, list) or got[0] != steps:
+                        ctx.mismatch(f"plan({name}): step list", replay, steps, out)
+                    elif got[1] != final:
+                        ctx.mismatch(f"plan({name}): document after the planned steps", replay, "recorded document", "different document")
+                    elif got[2] != 0:
+                        ctx.mismatch(f"plan({name}): Fitter calls", replay, "every recorded Fitter answer is consumed", f"{got[2]} unused")
+                    else:
+                        ctx.count(f"plan_tie_steps:{name}", len(steps))
+                        if len(steps) >= 2:
+                            ctx.count(f"plan_tie_multi:{name}")
+                elif st == "ok":
+                    got = out.get("ok")
+                    if not isinstance(got, list) or got[0] != steps:
+                        ctx.mismatch(f"plan({name}): step list", replay, steps, out)
+                    elif got[1].get("ok") != final:
+                        ctx.mismatch(f"plan({name}): document after the planned steps", replay, "recorded document",
+                                     got[1] if "err" in got[1] else "different document")
+                    else:
+                        ctx.count(f"plan_tie_steps:{name}", len(steps))
+                        if len(steps) >= 2:
+                            ctx.count(f"plan_tie_multi:{name}")
+                else:
+                    got = out.get("ok")
+                    err = out.get("err") if got is None else (got[1].get("err") if isinstance(got, list) and isinstance(got[1], dict) else None)
+                    if err != st:
+                        ctx.mismatch(f"plan({name}): outcome", replay, st, out if got is None else got[1])
+                continue
             if out.get("ok") != exp:
                 ctx.mismatch("apply(emitted step)", replay, "recorded document", out if "err" in out else "different document")
         del reqs[:], metas[:]
+
+    def plan_request(name, args, d, fit_log=()):
+        """the driver request that runs the model's planner on the same arguments (None: planner not modelled)"""
+        if name == "add_mark":
+            f, t, m = args
+            return {"op": "planAddMark", "s": info.lean_id, "doc": info.node(d), "from": f, "to": t, "mark": info.mark(m)}
+        if name == "remove_mark":
+            f, t, what = args
+            sel = ["all"] if what is None else (["type", info.mid[what.name]] if isinstance(what, MarkType) else ["exact", info.mark(what)])
+            return {"op": "planRemoveMark", "s": info.lean_id, "doc": info.node(d), "from": f, "to": t, "sel": sel}
+        fits = [({"ok": None if r is None else info.step(r)} if k == "ok" else {"err": err_class(r)}) for k, r in fit_log]
+        base = {"op": "planNodeOp", "s": info.lean_id, "doc": info.node(d), "kind": name, "fits": fits}
+        if name == "add_node_mark":
+            return dict(base, pos=args[0], mark=info.mark(args[1]))
+        if name == "remove_node_mark":
+            if isinstance(args[1], MarkType):
+                return dict(base, pos=args[0], markType=info.mid[args[1].name])
+            return dict(base, pos=args[0], mark=info.mark(args[1]))
+        if name == "set_node_attribute":
+            return dict(base, pos=args[0], name=args[1], value=jval(args[2]))
+        if name == "set_node_markup":
+            return dict(base, pos=args[0], type=info.nid[args[1].name], attrs=info.attrs(args[1], args[2]))
+        if name == "set_block_type":
+            return dict(base, **{"from": args[0], "to": args[1], "type": info.nid[args[2].name], "attrs": info.attrs(args[2], args[3])})
+        return None
 
     fam = schemas.family()
     kinds = ["add_mark", "remove_mark", "add_node_mark", "remove_node_mark", "set_node_attribute",
@@ -194,11 +287,31 @@ def run(ctx):
                 if ctx.time_left() < 0:
                     break
                 tr = Transform(d)
+                del _FIT_LOG[:]
                 st, val, added = ops.run_op(tr, thunk)
+                fit_log = list(_FIT_LOG)
                 replay = {"schema": info.name, "doc": d.to_json(), **ops.describe(name, args)}
                 ctx.case([name, info.name, d.to_json(), ops.describe(name, args)["args"]], nontrivial=added > 0,
                          sample={"op": name, "schema": info.name, "args": ops.describe(name, args)["args"], "outcome": st, "steps": added})
                 ctx.count(f"{name}:{st}")
+                preq = plan_request(name, args, d, fit_log) if st != "hang" else None
+                if preq is not None:
+                    if fit_log:
+                        ctx.count(f"plan_fitter_calls:{name}", len(fit_log))
+                    if name == "set_block_type" and st == "ok":
+                        for s_ in tr.steps:
+                            js = info.step(s_)
+                            kind = js[0] if js[0] != "replace" else ("replace:delete" if not js[3][0] else
+                                                                    ("replace:newline" if js[2] > js[1] else "replace:fill"))
+                            ctx.count(f"set_block_type_step:{kind}")
+                    if name == "add_mark" and st == "ok" and added > 0:
+                        # hypothesis of planAddMark_exact: no inline node with content is visited
+                        nonflat = []
+                        d.nodes_between(args[0], args[1], lambda n, p, par, i: nonflat.append(p) if n.is_inline and not n.is_leaf else None)
+                        ctx.count("add_mark:flat_range" if not nonflat else "add_mark:inline_node_with_content_in_range")
+                    reqs.append(preq)
+                    metas.append((replay, ("plan", name, st, [info.step(s) for s in tr.steps] if st == "ok" else None,
+                                           info.node(tr.doc) if st == "ok" else None)))
                 if st in ("internal", "hang"):
                     ctx.violation(name + "-internal", f"{name} died with an internal error: {val}", replay)
                     continue
